@@ -92,6 +92,7 @@ func faultScenario(family string, depth int, seed int64, pFault float64, exhaust
 			}
 		}
 		// continue from the last faulted variant
+		lines = append(lines, Line{Kind: "drop"})
 	}
 	if !w.SamePeriod() {
 		return nil, errPeriod
@@ -152,7 +153,7 @@ func scriptedFaults(sc Scenario) (lines []Line, err error) {
 			}
 		}
 		w.Restore(snap)
-		lines = append(lines, Line{Kind: "restore"})
+		lines = append(lines, Line{Kind: "restore"}, Line{Kind: "drop"})
 		emit(e)
 	}
 	return lines, nil
